@@ -93,11 +93,13 @@ class BranchingList:
             else:
                 break
        
-    def false_case(self):
+    def false_case(self, state=None):
         """ Checks if case value is false
+
+        :param list state: Open branches to be considered (all of them by default)
         """
         # nodes take effect only if the current case of every open branch is selected
-        for branch in self.state:
+        for branch in (self.state if state is None else state):
             # count number of true cases
             cases = self.branches[branch].cases
             num_true = sum([self.cases[c].value==True for c in cases])
@@ -141,6 +143,11 @@ class BranchingList:
             else:                                  # new branch
                 branch_part = self._open_branch(case_id)
             branch_id = self._get_branch_id()
+            if getattr(node, 'error', None) is not None:
+                # the condition could not be evaluated: that only matters where the clause can be reached
+                earlier = self.branches[branch_id].cases[:-1]
+                if not (self.false_case(self.state[:-1]) or any(self.cases[c].value==True for c in earlier)):
+                    raise node.error
             self.cases[case_id] = Case(
                 path        = path_new,          # path of a new case
                 code        = node.code,         # code line
